@@ -267,7 +267,7 @@ static bool cond_demand(const struct cmb_condition *c, const struct cmb_process 
 static void log_truths_with(long released)
 {
     for (int i = 1; i <= P.np; i++) {
-        if (cwait_pred[i] >= 0) {
+        if (cwait_pred[i] >= 0 && cmb_process_status(proc[i]) == CMB_PROCESS_RUNNING) {   /* not one that was stopped inside its wait */
             bool v = pred_eval(cwait_pred[i]);
             if (cwait_pred[i] == 2 && released == 1) v = true;
             fprintf(out, "{\"e\":\"Truth\",\"p\":%d,\"pred\":%d,\"v\":%s}\n", i, cwait_pred[i], v ? "true" : "false");
@@ -566,6 +566,7 @@ static void *procfn(struct cmb_process *me_p, void *ctx)
             (me_p == proc[me]) ? "true" : "false", slist_len(&(me_p->awaits)), slist_len(&(me_p->resources)), now());
     ntimers[me] = 0;
     cwait_pred[me] = -1;
+    amnt[me] = 0u; in_yield[me] = 0;      /* a restarted process: the slots of its previous life are dead */
     snap();
     for (int k = 0; k < P.p[me].n; k++) {
         const struct instr *in = &(P.p[me].code[k]);
